@@ -744,8 +744,14 @@ func (r *raft) appliedTo(index uint64, size entryEncodingSize) {
 	oldApplied := r.raftLog.applied
 	newApplied := max(index, oldApplied)
 	r.raftLog.appliedTo(newApplied, size)
+	r.maybeInitiateAutoLeave()
+}
 
-	if r.trk.Config.AutoLeave && newApplied >= r.pendingConfIndex && r.state == StateLeader {
+// maybeInitiateAutoLeave proposes the automatic transition out of a joint
+// configuration if this node is the leader, the configuration in force asks
+// for it and everything up to the change that entered it has been applied.
+func (r *raft) maybeInitiateAutoLeave() {
+	if r.trk.Config.AutoLeave && r.raftLog.applied >= r.pendingConfIndex && r.state == StateLeader {
 		// If the current (and most recent, at least for this leader's term)
 		// configuration should be auto-left, initiate that now. We use a
 		// nil Data which unmarshals into an empty ConfChangeV2 and has the
@@ -757,10 +763,12 @@ func (r *raft) appliedTo(index uint64, size entryEncodingSize) {
 		}
 		// NB: this proposal can't be dropped due to size, but can be
 		// dropped if a leadership transfer is in progress. We'll keep
-		// checking this condition on each applied entry, so either the
-		// leadership transfer will succeed and the new leader will leave
-		// the joint configuration, or the leadership transfer will fail,
-		// and we will propose the config change on the next advance.
+		// checking this condition on each applied entry and when a
+		// leadership transfer is given up, so either the leadership
+		// transfer will succeed and the new leader will leave the joint
+		// configuration, or the leadership transfer will fail, and we will
+		// propose the config change then (there need not be a further
+		// entry to apply).
 		if err := r.Step(m); err != nil {
 			r.logger.Debugf("not initiating automatic transition out of joint configuration %s: %v", r.trk.Config, err)
 		} else {
@@ -879,6 +887,9 @@ func (r *raft) tickHeartbeat() {
 		// If current leader cannot transfer leadership in electionTimeout, it becomes leader again.
 		if r.state == StateLeader && r.leadTransferee != None {
 			r.abortLeaderTransfer()
+			// An automatic leave-joint proposal may have been dropped while
+			// the transfer was in progress.
+			r.maybeInitiateAutoLeave()
 		}
 	}
 
